@@ -41,7 +41,7 @@ func c06Check(res *vh.Result) bsVisit {
 		max := w.cfg.MaxSize
 		ref := map[int]*c06Ref{}
 		tainted := map[[2]int]bool{} // values whose later misbehaviour is already reported by its root cause
-		seen := map[int]bool{} // doorkeeper reference: keys offered since the start (no reset happens in these runs)
+		seen := map[int]bool{}       // doorkeeper reference: keys offered since the start (no reset happens in these runs)
 		var outcome []string
 		for _, r := range w.recs {
 			k := r.Op.K
